@@ -82,6 +82,14 @@ class MySQLModel(data_algebra.db_model.DBModel):
             )
         return self.identifier_quote + identifier + self.identifier_quote
 
+    def quote_string(self, string: str) -> str:
+        """
+        Quote a string value (this dialect reads backslash as an escape character).
+        """
+        return data_algebra.sql_model.quote_string_with_backslash_escapes(
+            self.string_quote, string
+        )
+
 
 def example_handle():
     """
